@@ -173,9 +173,14 @@ theorem redraw_inside (lo hi u : K) (h : lo ≤ hi) (h0 : 0 ≤ u) (h1 : u ≤ 1
   have a2 : u * (hi - lo) ≤ 1 * (hi - lo) := mul_le_mul_of_nonneg_right h1 (by linarith)
   constructor <;> linarith
 
+/-- distance from `a` to the nearer end of an interval (l.1240: `abs(seq_at.reshape(-1,1) - b).min(axis=1)`) -/
+def endDist (a : K) (iv : K × K) : K :=
+  let d1 := absR (a - iv.1); let d2 := absR (a - iv.2); if d2 < d1 then d2 else d1
+
 /-- `bounded(clip=False)` (l.1236-1243), `nearest` = True or False: for EVERY oracle of uniform draws in `[0,1]`
 (one per interval and out-of-bounds entry) and every valid pick stream, an out-of-bounds selected entry is re-drawn
-INSIDE one of the intervals; every other entry (conforming or unselected) is never re-drawn -/
+INSIDE one of the intervals - with `nearest=True` an interval no other interval has a nearer end than; every other
+entry (conforming or unselected) is never re-drawn -/
 theorem boundedRandGo_spec (ivs : List (K × K)) (hne : ivs ≠ []) (hwf : ∀ iv ∈ ivs, iv.1 ≤ iv.2)
     (idx : Option (List Int)) (nearest : Bool) (draws : List (List K)) (x : List K) (k0 r0 : Nat) (picks : List Nat)
     (hp : ∀ p ∈ picks, p < ivs.length)
@@ -183,7 +188,8 @@ theorem boundedRandGo_spec (ivs : List (K × K)) (hne : ivs ≠ []) (hwf : ∀ i
     (j : Nat) (a : K) (ha : x[j]? = some a) :
     ∃ b, (boundedRandGo ivs idx nearest draws x k0 r0 picks)[j]? = some b ∧
       ((inAny ivs a = true ∨ selPos idx (k0 + j) = false) → b = a) ∧
-      ((inAny ivs a = false ∧ selPos idx (k0 + j) = true) → ∃ iv ∈ ivs, iv.1 ≤ b ∧ b ≤ iv.2) := by
+      ((inAny ivs a = false ∧ selPos idx (k0 + j) = true) →
+        ∃ iv ∈ ivs, iv.1 ≤ b ∧ b ≤ iv.2 ∧ (nearest = true → ∀ iv' ∈ ivs, endDist a iv ≤ endDist a iv')) := by
   induction x generalizing k0 r0 picks j with
   | nil => simp at ha
   | cons c t ih =>
@@ -219,8 +225,19 @@ theorem boundedRandGo_spec (ivs : List (K × K)) (hne : ivs ≠ []) (hwf : ∀ i
           obtain ⟨u, hu, u0, u1⟩ := hd jj r0 hjl (by simp)
           have hiv : ivs[jj]? = some ivs[jj] := List.getElem?_eq_getElem hjl
           have hm : ivs[jj] ∈ ivs := List.getElem_mem hjl
+          have hnear : nearest = true → ∀ iv' ∈ ivs, endDist c ivs[jj] ≤ endDist c iv' := by
+            intro hn iv' hiv'
+            rw [if_pos hn] at hjj
+            obtain ⟨b, hb, hmin, _⟩ := argminFirst_spec (ivs.map (fun iv =>
+                let d1 := absR (c - iv.1); let d2 := absR (c - iv.2); if d2 < d1 then d2 else d1)) (by simpa using hne)
+            rw [hjj, List.getElem?_map, hiv] at hb
+            obtain ⟨j', hj', rfl⟩ := List.getElem_of_mem hiv'
+            have := hmin j' (endDist c ivs[j']) (by rw [List.getElem?_map, List.getElem?_eq_getElem hj']; rfl)
+            simp only [Option.map_some, Option.some.injEq] at hb
+            rw [← hb] at this
+            exact this
           simp only [hiv, hu]
-          exact ⟨ivs[jj], hm, redraw_inside _ _ u (hwf _ hm) u0 u1⟩
+          exact ⟨ivs[jj], hm, (redraw_inside _ _ u (hwf _ hm) u0 u1).1, (redraw_inside _ _ u (hwf _ hm) u0 u1).2, hnear⟩
       | succ j =>
         simp only [List.getElem?_cons_succ] at ha ⊢
         have := ih (k0 + 1) (r0 + 1) picks.tail (fun q hq => hp q (List.mem_of_mem_tail hq))
